@@ -1,23 +1,48 @@
 // gateskel: T-gen for properties C06 and C11.
 //
-// Reads the working tree of the repository with go/parser (no type checking) and emits
+// Loads go/pkg/... of the repository with go/packages (syntax + types) and emits
 // lean/NA/Gen/GateSkel.lean:
 //
 //   - functions   for a fixed list of functions (orchestration in pkg/device, the front ends
-//     drc.Main / doapprove.Main, every backend's LoadDevice with its helpers,
-//     GetErrUnmanaged, checkBanner, checkDeviceName, checkHA, checkUnmanaged …)
-//     the ordered, depth-annotated skeleton of what they do:
-//     (depth, kind, text) with kind ∈ send | call | abort | assign | ret | if | else |
-//     for | switch | case | defer | closure.
-//     Statements without any send/call/abort/watched assignment/return are dropped;
-//     everything else appears in source order (calls inside a condition before the `if`).
-//   - errUnmanagedWrites   every assignment to a field `errUnmanaged` anywhere in go/pkg
-//     (function, statement text).
+//     drc.Main / doapprove.Main, program.LoadConfig, every backend's LoadDevice with its helpers,
+//     GetErrUnmanaged, checkBanner, checkDeviceName, checkHA, checkUnmanaged …) the ordered,
+//     depth-annotated skeleton of what they do: (depth, kind, text) with kind ∈ send | call |
+//     warn | abort | assign | ret | if | else | guard | for | switch | case | fallthrough |
+//     defer | closure.
+//   - errUnmanagedWrites   every assignment to a field `errUnmanaged` anywhere in go/pkg.
 //   - gateImpls   every method named GetErrUnmanaged in go/pkg with its return expression.
 //
-// A function of the list that is missing, or a statement kind the walker does not know and
-// that contains a call, is an error (exit 1): a construct the translator does not
-// understand breaks the tie, it is never skipped.
+// The skeleton is a NORMAL FORM of the meaning-relevant structure, not source text:
+//
+//   - calls are resolved by TYPE.  Wire primitives (methods of console.Conn, of net/http.Client
+//     and of goexpect, the three HTTP helpers of panos / nsx) → send; errlog.Abort → abort;
+//     errlog.Warning → warn; calls of listed functions stay as `call name`; any other module
+//     function is looked into: if neither it nor anything it can call (interface methods: every
+//     implementation in the module) sends or writes a watched field it is PURE and the call is
+//     dropped; if it is impure and the callee is unique its skeleton is INLINED at the call site;
+//     impure interface calls with several implementations stay as `call name`; calls of function
+//     values stay as `call <canonical name>`.
+//   - identifiers: receiver → recv, parameters → p1, p2 …, parameters of the k-th closure →
+//     c<k>p<i>, local closures → f1, f2 …, every variable of type error → err; a local that is
+//     defined exactly once by a cheap expression (literals, selectors, indexing, strings.* /
+//     path.* calls, flag definitions, Regexp.String) over stable operands is replaced by that
+//     expression; a local assigned from a wire primitive → r1, r2 …, every other local → v1, v2 …
+//     (both numbered in the order of first appearance in the finished skeleton).
+//   - constants are folded (named constants, "a" + "b", raw and interpreted literals alike).
+//   - assignments are shown by ROLE (a slice of the data flow): the left side is a watched field
+//     (errUnmanaged, CheckBanner), or (front ends) a variable passed into pkg/device, or the
+//     right side carries data from the device (mentions a reply variable, directly or through
+//     other assignments) AND the left side is used by something that is shown (a condition, a
+//     request, an argument of a kept call, a returned value, another shown assignment).
+//   - control flow: an `if` with a terminating branch (return, Abort, panic, continue, break)
+//     becomes `guard <condition of the terminating branch>` + that branch, the other branch
+//     continues at the same depth (`if c {return}; X` ≡ `if !c {X}` ≡ `if c {return} else {X}`);
+//     an if/else without terminating branch is printed with the positive condition first
+//     (`if !c {A} else {B}` ≡ `if c {B} else {A}`); conditions are in negation normal form for
+//     comparisons (`!(a == b)` ≡ `a != b`); statements without shown content disappear.
+//
+// A function of the list that is missing, a package that does not type-check, or a statement
+// kind the walker does not know and that contains a call, is an error (exit 1).
 package main
 
 import (
@@ -25,15 +50,1793 @@ import (
 	"flag"
 	"fmt"
 	"go/ast"
-	"go/parser"
+	"go/constant"
 	"go/printer"
 	"go/token"
+	"go/types"
 	"os"
 	"path/filepath"
+	"regexp"
 	"sort"
 	"strconv"
 	"strings"
+
+	"golang.org/x/tools/go/packages"
+	"golang.org/x/tools/go/types/typeutil"
 )
+
+type target struct {
+	pkg   string
+	recv  string
+	name  string
+	rets  bool // emit return statements
+	front bool // front end: switches completely, returns inside them
+}
+
+var targets = []target{
+	{"device", "", "ApproveOrCompare", true, false},
+	{"device", "", "CompareFiles", true, false},
+	{"device", "state", "approve", true, false},
+	{"device", "state", "compare", true, false},
+	{"device", "state", "compareDevice", true, false},
+	{"device", "state", "loadDevice", true, false},
+	{"device", "state", "applyCommands", true, false},
+	{"device", "state", "getCompare", true, false},
+	{"drc", "", "Main", false, true},
+	{"doapprove", "", "Main", false, true},
+	{"program", "", "LoadConfig", true, true},
+	{"cisco", "State", "LoginEnable", true, false},
+	{"cisco", "State", "checkBanner", true, false},
+	{"cisco", "State", "GetErrUnmanaged", true, false},
+	{"asa", "State", "LoadDevice", true, false},
+	{"asa", "State", "setTerminal", true, false},
+	{"asa", "State", "logVersion", true, false},
+	{"asa", "State", "checkDeviceName", true, false},
+	{"ios", "State", "LoadDevice", true, false},
+	{"ios", "State", "setTerminal", true, false},
+	{"ios", "State", "logVersion", true, false},
+	{"ios", "State", "checkDeviceName", true, false},
+	{"linux", "State", "LoadDevice", true, false},
+	{"linux", "State", "loginEnable", true, false},
+	{"linux", "State", "logVersion", true, false},
+	{"linux", "State", "checkDeviceName", true, false},
+	{"linux", "State", "checkBanner", true, false},
+	{"linux", "State", "getDeviceRoutes", true, false},
+	{"linux", "State", "getDeviceIPTables", true, false},
+	{"linux", "State", "GetErrUnmanaged", true, false},
+	{"linux", "State", "GetChanges", true, false},
+	{"panos", "State", "LoadDevice", true, false},
+	{"panos", "State", "getAPIKey", true, false},
+	{"panos", "State", "checkHA", true, false},
+	{"panos", "State", "GetChanges", true, false},
+	{"panos", "State", "checkUnmanaged", true, false},
+	{"panos", "State", "GetErrUnmanaged", true, false},
+	{"panos", "State", "httpPrefixGetLog", true, false},
+	{"panos", "State", "httpGet", true, false},
+	{"panos", "PanConfig", "checkDeviceName", true, false},
+	{"nsx", "State", "LoadDevice", true, false},
+	{"nsx", "State", "getRawJSON", true, false},
+	{"nsx", "State", "sendRequest", true, false},
+	{"nsx", "State", "GetErrUnmanaged", true, false},
+	{"nsx", "State", "GetChanges", true, false},
+	{"httpdevice", "", "TryReachableHTTPLogin", true, false},
+	{"cisco", "State", "GetChanges", true, false},
+}
+
+// Module functions that put something on the wire (or wait for the device): "pkg.Recv.Name" →
+// number of leading arguments that are shown.
+var modulePrims = map[string]int{
+	"console.Conn.WaitLogin": 1, "console.Conn.WaitShort": 1, "console.Conn.IssueCmd": 2, "console.Conn.SendCmd": 1,
+	"console.Conn.GetCmdOutput": 1, "console.Conn.Send": 1, "console.Conn.GetOutput": 0, "console.Conn.TryPrompt": 0,
+	"panos.State.httpPrefixGetLog": 1, "panos.State.httpGet": 1, "nsx.State.sendRequest": 2,
+}
+
+// fields whose assignment is always shown
+var watchedFields = map[string]bool{"errUnmanaged": true, "CheckBanner": true}
+
+// calls into pkg/device that are shown with all their arguments (front ends)
+var fullArgs = map[string]bool{"device.ApproveOrCompare": true, "device.CompareFiles": true}
+
+var problems []string
+
+func problem(format string, a ...any) { problems = append(problems, fmt.Sprintf(format, a...)) }
+
+var fset *token.FileSet
+
+func rawText(n ast.Node) string {
+	var buf bytes.Buffer
+	printer.Fprint(&buf, fset, n)
+	return strings.Join(strings.Fields(buf.String()), " ")
+}
+
+// ---------------------------------------------------------------- index of the module
+
+type fnInfo struct {
+	pkg, recv, name string
+	decl            *ast.FuncDecl
+	info            *types.Info
+	obj             *types.Func
+	listed          bool
+	impure          int // 0 unknown, 1 visiting, 2 pure, 3 impure
+}
+
+func (fi *fnInfo) key() string {
+	if fi.recv != "" {
+		return fi.pkg + ".(*" + fi.recv + ")." + fi.name
+	}
+	return fi.pkg + "." + fi.name
+}
+
+var (
+	declOf     = map[*types.Func]*fnInfo{}
+	allFns     []*fnInfo
+	namedTypes []*types.Named // named types declared in go/pkg
+)
+
+func relPkg(path string) (string, bool) {
+	i := strings.LastIndex(path, "/go/pkg/")
+	if i < 0 {
+		return "", false
+	}
+	return path[i+len("/go/pkg/"):], true
+}
+
+func recvTypeName(f *types.Func) (pkgPath, name string) {
+	sig, ok := f.Type().(*types.Signature)
+	if !ok || sig.Recv() == nil {
+		return "", ""
+	}
+	t := sig.Recv().Type()
+	if p, ok := t.(*types.Pointer); ok {
+		t = p.Elem()
+	}
+	if n, ok := t.(*types.Named); ok {
+		if n.Obj().Pkg() != nil {
+			return n.Obj().Pkg().Path(), n.Obj().Name()
+		}
+		return "", n.Obj().Name()
+	}
+	return "", ""
+}
+
+// wirePrim: is the callee a wire primitive?  Returns its shown name and number of shown arguments.
+func wirePrim(f *types.Func) (string, int, bool) {
+	if f == nil || f.Pkg() == nil {
+		return "", 0, false
+	}
+	path := f.Pkg().Path()
+	_, rn := recvTypeName(f)
+	if rel, ok := relPkg(path); ok {
+		if n, ok := modulePrims[rel+"."+rn+"."+f.Name()]; ok {
+			return f.Name(), n, true
+		}
+		return "", 0, false
+	}
+	if path == "net/http" && rn == "Client" {
+		switch f.Name() {
+		case "Get", "Do", "PostForm", "Post", "Head":
+			return f.Name(), 1, true
+		}
+	}
+	if strings.HasSuffix(path, "/goexpect") {
+		switch {
+		case strings.HasPrefix(f.Name(), "Spawn"):
+			return f.Name(), 0, true
+		case rn == "GExpect" && f.Name() == "Send":
+			return f.Name(), 1, true
+		case rn == "GExpect" && strings.HasPrefix(f.Name(), "Expect"):
+			return f.Name(), 0, true
+		}
+	}
+	return "", 0, false
+}
+
+func staticCallee(info *types.Info, c *ast.CallExpr) *types.Func {
+	if f, ok := typeutil.Callee(info, c).(*types.Func); ok {
+		return f.Origin()
+	}
+	return nil
+}
+
+func isIfaceMethod(f *types.Func) *types.Interface {
+	sig, ok := f.Type().(*types.Signature)
+	if !ok || sig.Recv() == nil {
+		return nil
+	}
+	if it, ok := sig.Recv().Type().Underlying().(*types.Interface); ok {
+		return it
+	}
+	return nil
+}
+
+// implementations of an interface method in the module
+func implementations(f *types.Func, it *types.Interface) []*fnInfo {
+	seen := map[*fnInfo]bool{}
+	var out []*fnInfo
+	for _, n := range namedTypes {
+		if types.IsInterface(n) {
+			continue
+		}
+		var recv types.Type = types.NewPointer(n)
+		if !types.Implements(recv, it) {
+			continue
+		}
+		sel := types.NewMethodSet(recv).Lookup(f.Pkg(), f.Name())
+		if sel == nil {
+			continue
+		}
+		m, ok := sel.Obj().(*types.Func)
+		if !ok {
+			continue
+		}
+		if fi := declOf[m.Origin()]; fi != nil && !seen[fi] {
+			seen[fi] = true
+			out = append(out, fi)
+		}
+	}
+	sort.Slice(out, func(i, j int) bool { return out[i].key() < out[j].key() })
+	return out
+}
+
+// callees: module functions a call can reach.  dynamic: an interface call.
+func callees(info *types.Info, c *ast.CallExpr) (cands []*fnInfo, dynamic bool) {
+	f := staticCallee(info, c)
+	if f == nil {
+		return nil, false
+	}
+	if it := isIfaceMethod(f); it != nil {
+		return implementations(f, it), true
+	}
+	if fi := declOf[f]; fi != nil {
+		return []*fnInfo{fi}, false
+	}
+	return nil, false
+}
+
+func isAbort(f *types.Func) bool {
+	if f == nil || f.Pkg() == nil {
+		return false
+	}
+	rel, ok := relPkg(f.Pkg().Path())
+	return ok && rel == "errlog" && f.Name() == "Abort"
+}
+
+func isWarning(f *types.Func) bool {
+	if f == nil || f.Pkg() == nil {
+		return false
+	}
+	rel, ok := relPkg(f.Pkg().Path())
+	return ok && rel == "errlog" && f.Name() == "Warning"
+}
+
+func isImpure(fi *fnInfo) bool {
+	switch fi.impure {
+	case 1, 2:
+		return false // 1: cycle, decided by the rest
+	case 3:
+		return true
+	}
+	fi.impure = 1
+	res := false
+	ast.Inspect(fi.decl.Body, func(n ast.Node) bool {
+		if res {
+			return false
+		}
+		switch v := n.(type) {
+		case *ast.CallExpr:
+			if _, _, ok := wirePrim(staticCallee(fi.info, v)); ok {
+				res = true
+				return false
+			}
+			cands, _ := callees(fi.info, v)
+			for _, c := range cands {
+				if isImpure(c) {
+					res = true
+					return false
+				}
+			}
+		case *ast.AssignStmt:
+			for _, l := range v.Lhs {
+				if sel, ok := l.(*ast.SelectorExpr); ok && watchedFields[sel.Sel.Name] {
+					res = true
+					return false
+				}
+			}
+		}
+		return true
+	})
+	if res {
+		fi.impure = 3
+	} else {
+		fi.impure = 2
+	}
+	return res
+}
+
+// ---------------------------------------------------------------- naming context of one function
+
+type fctx struct {
+	fi       *fnInfo
+	info     *types.Info
+	fixed    map[types.Object]string // recv, parameters, closure parameters, closures
+	defs     map[types.Object]int
+	mut      map[loc]int // in-place updates (x.f = …, x[i] = …, &x)
+	anyMut   map[types.Object]bool
+	rhs      map[types.Object]ast.Expr
+	reply    map[types.Object]bool
+	tainted  map[loc]bool
+	anyTaint map[types.Object]bool
+	argVars  map[types.Object]bool
+	lazy     []types.Object
+	lazyIdx  map[types.Object]int
+	nclosure int
+	nfn      int
+	expand   map[types.Object]bool
+}
+
+// loc: a variable, or one field of a variable (access paths of length ≤ 1)
+type loc struct {
+	o types.Object
+	f string
+}
+
+// locOf: the location an assignable expression updates.
+func (fc *fctx) locOf(e ast.Expr) (loc, bool) {
+	field := ""
+	for {
+		switch v := e.(type) {
+		case *ast.Ident:
+			if v.Name == "_" {
+				return loc{}, false
+			}
+			o := fc.obj(v)
+			if o == nil {
+				return loc{}, false
+			}
+			return loc{o, field}, true
+		case *ast.SelectorExpr:
+			field = v.Sel.Name
+			e = v.X
+		case *ast.IndexExpr:
+			field = ""
+			e = v.X
+		case *ast.SliceExpr:
+			field = ""
+			e = v.X
+		case *ast.StarExpr:
+			e = v.X
+		case *ast.ParenExpr:
+			e = v.X
+		default:
+			return loc{}, false
+		}
+	}
+}
+
+// reads: the locations an expression reads (closures are not entered).
+func (fc *fctx) reads(e ast.Node, f func(loc)) {
+	var visit func(n ast.Node) bool
+	visit = func(n ast.Node) bool {
+		switch v := n.(type) {
+		case *ast.FuncLit:
+			return false
+		case *ast.SelectorExpr:
+			if id, ok := v.X.(*ast.Ident); ok {
+				if o := fc.obj(id); o != nil && fc.isLocal(o) {
+					f(loc{o, v.Sel.Name})
+					return false
+				}
+			}
+			ast.Inspect(v.X, visit)
+			return false
+		case *ast.KeyValueExpr:
+			ast.Inspect(v.Value, visit)
+			return false
+		case *ast.Ident:
+			if o := fc.obj(v); o != nil && fc.isLocal(o) {
+				f(loc{o, ""})
+			}
+		}
+		return true
+	}
+	ast.Inspect(e, visit)
+}
+
+func (fc *fctx) isTainted(l loc) bool {
+	return fc.tainted[l] || fc.tainted[loc{l.o, ""}] || (l.f == "" && fc.anyTaint[l.o])
+}
+
+func (fc *fctx) readsTainted(e ast.Node) bool {
+	found := false
+	fc.reads(e, func(l loc) {
+		if fc.isTainted(l) {
+			found = true
+		}
+	})
+	return found
+}
+
+func (fc *fctx) stable(l loc) bool {
+	if fc.defs[l.o] > 1 || fc.reply[l.o] {
+		return false
+	}
+	if fc.mut[l] > 0 || fc.mut[loc{l.o, ""}] > 0 {
+		return false
+	}
+	return l.f != "" || !fc.anyMut[l.o]
+}
+
+func (fc *fctx) obj(id *ast.Ident) types.Object {
+	if o := fc.info.Uses[id]; o != nil {
+		return o
+	}
+	return fc.info.Defs[id]
+}
+
+func (fc *fctx) isLocal(o types.Object) bool {
+	v, ok := o.(*types.Var)
+	if !ok || v.IsField() || v.Pkg() == nil {
+		return false
+	}
+	return v.Parent() != v.Pkg().Scope()
+}
+
+func rootIdent(e ast.Expr) *ast.Ident {
+	for {
+		switch v := e.(type) {
+		case *ast.Ident:
+			return v
+		case *ast.SelectorExpr:
+			e = v.X
+		case *ast.IndexExpr:
+			e = v.X
+		case *ast.StarExpr:
+			e = v.X
+		case *ast.ParenExpr:
+			e = v.X
+		case *ast.SliceExpr:
+			e = v.X
+		default:
+			return nil
+		}
+	}
+}
+
+func (fc *fctx) containsWire(e ast.Node) bool {
+	found := false
+	ast.Inspect(e, func(n ast.Node) bool {
+		switch v := n.(type) {
+		case *ast.FuncLit:
+			return false
+		case *ast.CallExpr:
+			if _, _, ok := wirePrim(staticCallee(fc.info, v)); ok {
+				found = true
+			}
+		}
+		return !found
+	})
+	return found
+}
+
+// outParams: arguments of a call through which the callee hands data back (&x, and the
+// target of Unmarshal / Decode); ins: the other arguments.
+func (fc *fctx) outParams(c *ast.CallExpr) (outs []ast.Expr, ins []ast.Expr) {
+	last := -1
+	if f := staticCallee(fc.info, c); f != nil && f.Pkg() != nil && strings.HasPrefix(f.Pkg().Path(), "encoding/") &&
+		(f.Name() == "Unmarshal" || f.Name() == "Decode") {
+		last = len(c.Args) - 1
+	}
+	for i, a := range c.Args {
+		if u, ok := a.(*ast.UnaryExpr); ok && u.Op == token.AND {
+			outs = append(outs, u.X)
+		} else if i == last {
+			outs = append(outs, a)
+		} else {
+			ins = append(ins, a)
+		}
+	}
+	return
+}
+
+func newCtx(fi *fnInfo) *fctx {
+	fd := fi.decl
+	fc := &fctx{fi: fi, info: fi.info, fixed: map[types.Object]string{}, defs: map[types.Object]int{}, rhs: map[types.Object]ast.Expr{},
+		mut: map[loc]int{}, anyMut: map[types.Object]bool{}, anyTaint: map[types.Object]bool{},
+		reply: map[types.Object]bool{}, tainted: map[loc]bool{}, argVars: map[types.Object]bool{},
+		lazyIdx: map[types.Object]int{}, expand: map[types.Object]bool{}}
+	if fd.Recv != nil && len(fd.Recv.List) > 0 && len(fd.Recv.List[0].Names) > 0 {
+		fc.fixed[fc.info.Defs[fd.Recv.List[0].Names[0]]] = "recv"
+	}
+	i := 0
+	for _, f := range fd.Type.Params.List {
+		for _, n := range f.Names {
+			i++
+			if o := fc.info.Defs[n]; o != nil {
+				fc.fixed[o] = fmt.Sprintf("p%d", i)
+			}
+		}
+	}
+	mutate := func(e ast.Expr) {
+		if l, ok := fc.locOf(e); ok {
+			fc.mut[l]++
+			fc.anyMut[l.o] = true
+		}
+	}
+	def := func(l ast.Expr, r ast.Expr, n int) {
+		id, ok := l.(*ast.Ident)
+		if !ok {
+			mutate(l)
+			return
+		}
+		if id.Name == "_" {
+			return
+		}
+		o := fc.obj(id)
+		if o == nil {
+			return
+		}
+		fc.defs[o] += n
+		fc.rhs[o] = r
+	}
+	type flow struct {
+		lhs []loc
+		rhs []ast.Node
+	}
+	var flows []flow
+	addFlow := func(lhs []ast.Expr, rhs []ast.Node) {
+		var ls []loc
+		for _, l := range lhs {
+			if lc, ok := fc.locOf(l); ok {
+				ls = append(ls, lc)
+			}
+		}
+		flows = append(flows, flow{ls, rhs})
+	}
+	ast.Inspect(fd.Body, func(n ast.Node) bool {
+		switch v := n.(type) {
+		case *ast.AssignStmt:
+			extra := 1
+			if v.Tok != token.DEFINE && v.Tok != token.ASSIGN {
+				extra = 2
+			}
+			if len(v.Lhs) == len(v.Rhs) {
+				for i := range v.Lhs {
+					def(v.Lhs[i], v.Rhs[i], extra)
+					addFlow([]ast.Expr{v.Lhs[i]}, []ast.Node{v.Rhs[i]})
+					if fc.containsWire(v.Rhs[i]) {
+						if id, ok := v.Lhs[i].(*ast.Ident); ok && id.Name != "_" {
+							fc.reply[fc.obj(id)] = true
+						}
+					}
+				}
+			} else {
+				for _, l := range v.Lhs {
+					def(l, nil, extra)
+				}
+				rs := []ast.Node{}
+				for _, r := range v.Rhs {
+					rs = append(rs, r)
+				}
+				addFlow(v.Lhs, rs)
+				if len(v.Rhs) == 1 && fc.containsWire(v.Rhs[0]) {
+					if id, ok := v.Lhs[0].(*ast.Ident); ok && id.Name != "_" {
+						fc.reply[fc.obj(id)] = true
+					}
+				}
+			}
+		case *ast.ValueSpec:
+			for i, id := range v.Names {
+				if len(v.Values) == len(v.Names) {
+					def(id, v.Values[i], 1)
+					addFlow([]ast.Expr{id}, []ast.Node{v.Values[i]})
+				} else {
+					def(id, nil, 2) // zero value, assigned later
+				}
+			}
+		case *ast.RangeStmt:
+			var lhs []ast.Expr
+			for _, e := range []ast.Expr{v.Key, v.Value} {
+				if e != nil {
+					// a loop variable is stable within one iteration (unless assigned in the body)
+					def(e, nil, 1)
+					lhs = append(lhs, e)
+				}
+			}
+			addFlow(lhs, []ast.Node{v.X})
+		case *ast.IncDecStmt:
+			def(v.X, nil, 2)
+		case *ast.CallExpr:
+			if f := staticCallee(fc.info, v); f != nil && f.Pkg() != nil {
+				if rel, ok := relPkg(f.Pkg().Path()); ok && fullArgs[rel+"."+f.Name()] {
+					for _, a := range v.Args {
+						ast.Inspect(a, func(m ast.Node) bool {
+							if id, ok := m.(*ast.Ident); ok {
+								if o := fc.obj(id); o != nil {
+									fc.argVars[o] = true
+								}
+							}
+							return true
+						})
+					}
+				}
+			}
+			outs, ins := fc.outParams(v)
+			if len(outs) > 0 {
+				var in []ast.Node
+				for _, a := range ins {
+					in = append(in, a)
+				}
+				addFlow(outs, in)
+				for _, o := range outs {
+					mutate(o)
+				}
+			}
+		}
+		return true
+	})
+	for o := range fc.reply {
+		fc.tainted[loc{o, ""}] = true
+	}
+	for changed := true; changed; {
+		changed = false
+		for _, f := range flows {
+			t := false
+			for _, r := range f.rhs {
+				if fc.containsWire(r) || fc.readsTainted(r) {
+					t = true
+				}
+			}
+			if !t {
+				continue
+			}
+			for _, l := range f.lhs {
+				if !fc.tainted[l] {
+					fc.tainted[l] = true
+					fc.anyTaint[l.o] = true
+					changed = true
+				}
+			}
+		}
+	}
+	return fc
+}
+
+// cheap: an expression that may replace the single-assignment local it defines.
+func (fc *fctx) cheap(e ast.Expr) bool {
+	if tv, ok := fc.info.Types[e]; ok && tv.Value != nil {
+		return true
+	}
+	switch v := e.(type) {
+	case *ast.BasicLit:
+		return true
+	case *ast.Ident:
+		o := fc.obj(v)
+		if o == nil {
+			return true
+		}
+		if fc.isLocal(o) {
+			return fc.stable(loc{o, ""}) // stable operand
+		}
+		_, isVar := o.(*types.Var)
+		return !isVar // constants, functions, packages, nil … ; package variables may change
+	case *ast.ParenExpr:
+		return fc.cheap(v.X)
+	case *ast.StarExpr:
+		return fc.cheap(v.X)
+	case *ast.UnaryExpr:
+		return v.Op != token.AND && v.Op != token.ARROW && fc.cheap(v.X)
+	case *ast.BinaryExpr:
+		return fc.cheap(v.X) && fc.cheap(v.Y)
+	case *ast.SelectorExpr:
+		if _, ok := fc.info.Selections[v]; !ok {
+			// qualified identifier pkg.X
+			o := fc.info.Uses[v.Sel]
+			_, isVar := o.(*types.Var)
+			return !isVar
+		}
+		if id, ok := v.X.(*ast.Ident); ok {
+			if o := fc.obj(id); o != nil && fc.isLocal(o) {
+				return fc.stable(loc{o, v.Sel.Name})
+			}
+		}
+		return fc.cheap(v.X)
+	case *ast.IndexExpr:
+		return fc.cheap(v.X) && fc.cheap(v.Index)
+	case *ast.SliceExpr:
+		return fc.cheap(v.X) && (v.Low == nil || fc.cheap(v.Low)) && (v.High == nil || fc.cheap(v.High)) && v.Max == nil
+	case *ast.CallExpr:
+		ok := false
+		if tv, isT := fc.info.Types[v.Fun]; isT && tv.IsType() {
+			ok = true // conversion
+		} else if id, isID := v.Fun.(*ast.Ident); isID {
+			if _, isB := fc.obj(id).(*types.Builtin); isB && id.Name == "len" {
+				ok = true
+			}
+		}
+		if f := staticCallee(fc.info, v); f != nil && f.Pkg() != nil {
+			pp, rn := recvTypeName(f)
+			switch {
+			case rn == "" && (f.Pkg().Path() == "strings" || f.Pkg().Path() == "path" || f.Pkg().Path() == "path/filepath"):
+				ok = f.Name() != "EvalSymlinks" && f.Name() != "Abs" && f.Name() != "Glob" && f.Name() != "Walk" && f.Name() != "WalkDir"
+			case rn == "FlagSet" && strings.HasSuffix(pp, "/pflag") && strings.HasSuffix(f.Name(), "P"):
+				ok = true
+			case rn == "Regexp" && pp == "regexp" && f.Name() == "String":
+				ok = true
+			}
+			if ok && rn != "FlagSet" {
+				if sel, isSel := v.Fun.(*ast.SelectorExpr); isSel && rn != "" && !fc.cheap(sel.X) {
+					ok = false
+				}
+			}
+		}
+		if !ok {
+			return false
+		}
+		for _, a := range v.Args {
+			if !fc.cheap(a) {
+				return false
+			}
+		}
+		return true
+	}
+	return false
+}
+
+func (fc *fctx) single(o types.Object) ast.Expr {
+	if o == nil || !fc.isLocal(o) || fc.defs[o] != 1 || fc.reply[o] || fc.fixed[o] != "" {
+		return nil
+	}
+	r := fc.rhs[o]
+	if r == nil {
+		return nil
+	}
+	if _, isFn := r.(*ast.FuncLit); isFn {
+		return nil
+	}
+	if !fc.cheap(r) {
+		return nil
+	}
+	return r
+}
+
+func isErrorType(t types.Type) bool {
+	return t != nil && types.Identical(t, types.Universe.Lookup("error").Type())
+}
+
+func (fc *fctx) placeholder(o types.Object) string {
+	i, ok := fc.lazyIdx[o]
+	if !ok {
+		i = len(fc.lazy)
+		fc.lazy = append(fc.lazy, o)
+		fc.lazyIdx[o] = i
+	}
+	return fmt.Sprintf("\x01%d\x02", i)
+}
+
+func isStrLit(s string) bool {
+	if len(s) < 2 || s[0] != '"' {
+		return false
+	}
+	_, err := strconv.Unquote(s)
+	return err == nil
+}
+
+func (fc *fctx) ident(id *ast.Ident) string {
+	if id.Name == "_" {
+		return "_"
+	}
+	o := fc.obj(id)
+	if o == nil {
+		return id.Name
+	}
+	if s, ok := fc.fixed[o]; ok {
+		return s
+	}
+	switch v := o.(type) {
+	case *types.Const:
+		if v.Val().Kind() == constant.String {
+			return strconv.Quote(constant.StringVal(v.Val()))
+		}
+		if fc.isLocalConst(v) {
+			return v.Val().ExactString()
+		}
+		return id.Name
+	case *types.Var:
+		if !fc.isLocal(v) {
+			return id.Name
+		}
+		if isErrorType(v.Type()) {
+			return "err"
+		}
+		if r := fc.single(v); r != nil && !fc.expand[v] {
+			fc.expand[v] = true
+			s := fc.p(r)
+			fc.expand[v] = false
+			if _, bin := stripParen(r).(*ast.BinaryExpr); bin && !isStrLit(s) {
+				return "(" + s + ")"
+			}
+			return s
+		}
+		return fc.placeholder(v)
+	}
+	return id.Name
+}
+
+func (fc *fctx) isLocalConst(c *types.Const) bool {
+	return c.Pkg() != nil && c.Parent() != c.Pkg().Scope()
+}
+
+// p: canonical text of an expression (locals as placeholders).
+func (fc *fctx) p(e ast.Expr) string {
+	if e == nil {
+		return ""
+	}
+	if tv, ok := fc.info.Types[e]; ok && tv.Value != nil && tv.Value.Kind() == constant.String {
+		return strconv.Quote(constant.StringVal(tv.Value))
+	}
+	switch v := e.(type) {
+	case *ast.Ident:
+		return fc.ident(v)
+	case *ast.BasicLit:
+		return v.Value
+	case *ast.ParenExpr:
+		s := fc.p(v.X)
+		if strings.HasPrefix(s, "(") && strings.HasSuffix(s, ")") {
+			return s
+		}
+		return "(" + s + ")"
+	case *ast.StarExpr:
+		return "*" + fc.p(v.X)
+	case *ast.UnaryExpr:
+		return v.Op.String() + fc.p(v.X)
+	case *ast.BinaryExpr:
+		l, r := fc.p(v.X), fc.p(v.Y)
+		if v.Op == token.ADD && isStrLit(l) && isStrLit(r) {
+			a, _ := strconv.Unquote(l)
+			b, _ := strconv.Unquote(r)
+			return strconv.Quote(a + b)
+		}
+		return l + " " + v.Op.String() + " " + r
+	case *ast.SelectorExpr:
+		return fc.p(v.X) + "." + v.Sel.Name
+	case *ast.IndexExpr:
+		return fc.p(v.X) + "[" + fc.p(v.Index) + "]"
+	case *ast.SliceExpr:
+		return fc.p(v.X) + "[" + fc.p(v.Low) + ":" + fc.p(v.High) + "]"
+	case *ast.TypeAssertExpr:
+		return fc.p(v.X) + ".(" + rawText(v.Type) + ")"
+	case *ast.CallExpr:
+		if _, _, ok := wirePrim(staticCallee(fc.info, v)); ok {
+			return "<reply>"
+		}
+		args := make([]string, len(v.Args))
+		for i, a := range v.Args {
+			args[i] = fc.p(a)
+		}
+		fun := ""
+		switch f := v.Fun.(type) {
+		case *ast.Ident, *ast.SelectorExpr, *ast.ParenExpr:
+			fun = fc.p(f)
+		default:
+			fun = rawText(v.Fun)
+		}
+		return fun + "(" + strings.Join(args, ", ") + ")"
+	case *ast.CompositeLit:
+		parts := make([]string, len(v.Elts))
+		for i, el := range v.Elts {
+			parts[i] = fc.p(el)
+		}
+		t := ""
+		if v.Type != nil {
+			t = rawText(v.Type)
+		}
+		return t + "{" + strings.Join(parts, ", ") + "}"
+	case *ast.KeyValueExpr:
+		return rawText(v.Key) + ": " + fc.p(v.Value)
+	case *ast.FuncLit:
+		return "func{…}"
+	}
+	return rawText(e)
+}
+
+func stripParen(e ast.Expr) ast.Expr {
+	for {
+		p, ok := e.(*ast.ParenExpr)
+		if !ok {
+			return e
+		}
+		e = p.X
+	}
+}
+
+// cond: condition; neg: print its negation.  Comparisons are negated by flipping the operator.
+func (fc *fctx) cond(e ast.Expr, neg bool) string {
+	switch v := e.(type) {
+	case *ast.ParenExpr:
+		return fc.cond(v.X, neg)
+	case *ast.UnaryExpr:
+		if v.Op == token.NOT {
+			return fc.cond(v.X, !neg)
+		}
+	case *ast.BinaryExpr:
+		flip := map[token.Token]token.Token{token.EQL: token.NEQ, token.NEQ: token.EQL, token.LSS: token.GEQ, token.GEQ: token.LSS,
+			token.GTR: token.LEQ, token.LEQ: token.GTR}
+		if f, ok := flip[v.Op]; ok {
+			op := v.Op
+			if neg {
+				op = f
+			}
+			return fc.p(v.X) + " " + op.String() + " " + fc.p(v.Y)
+		}
+		if v.Op == token.LAND || v.Op == token.LOR {
+			sub := func(x ast.Expr) string {
+				s := fc.cond(x, false)
+				if b, ok := stripParen(x).(*ast.BinaryExpr); ok && (b.Op == token.LAND || b.Op == token.LOR) && b.Op != v.Op {
+					return "(" + s + ")"
+				}
+				return s
+			}
+			s := sub(v.X) + " " + v.Op.String() + " " + sub(v.Y)
+			if neg {
+				return "!(" + s + ")"
+			}
+			return s
+		}
+	}
+	s := fc.p(e)
+	if neg {
+		if _, ok := stripParen(e).(*ast.BinaryExpr); ok {
+			return "!(" + s + ")"
+		}
+		return "!" + s
+	}
+	return s
+}
+
+// ---------------------------------------------------------------- the walker (builds a tree)
+
+type node struct {
+	kind, text string
+	kids       []*node
+	// tentative assignment
+	isAssign bool
+	always   bool
+	lhs, rhs string
+	carries  bool     // right side carries device data
+	final    bool     // inlined from another function: names already final
+	extra    []string // further texts that count as "used" when the node is shown (call arguments)
+}
+
+type ex struct {
+	cur     *[]*node
+	rets    bool
+	front   bool
+	inSw    int
+	fn      string
+	fc      *fctx
+	inline  map[*fnInfo]bool
+	pending []string // argument texts of the call about to be emitted
+	ctl     []string // enclosing loops / switches of the current function body
+}
+
+func (x *ex) emit(kind, txt string) *node {
+	n := &node{kind: kind, text: txt}
+	*x.cur = append(*x.cur, n)
+	if kind != "assign" {
+		n.extra, x.pending = x.pending, nil
+	}
+	return n
+}
+
+// under: run f with n's children as the current list
+func (x *ex) under(n *node, f func()) {
+	save := x.cur
+	x.cur = &n.kids
+	f()
+	x.cur = save
+}
+
+// sub: collect what f emits without attaching it
+func (x *ex) sub(f func()) []*node {
+	var l []*node
+	save := x.cur
+	x.cur = &l
+	f()
+	x.cur = save
+	return l
+}
+
+func (x *ex) call(c *ast.CallExpr) {
+	fc := x.fc
+	var lits []*ast.FuncLit
+	for _, a := range c.Args {
+		if fl, ok := a.(*ast.FuncLit); ok {
+			lits = append(lits, fl)
+			continue
+		}
+		x.expr(a)
+	}
+	if sel, ok := c.Fun.(*ast.SelectorExpr); ok {
+		x.expr(sel.X)
+	}
+	useArgs := func() {
+		x.pending = nil
+		for _, a := range c.Args {
+			x.pending = append(x.pending, fc.p(a))
+		}
+		if sel, ok := c.Fun.(*ast.SelectorExpr); ok {
+			x.pending = append(x.pending, fc.p(sel.X))
+		}
+	}
+	f := staticCallee(fc.info, c)
+	switch {
+	case f == nil:
+		// conversion, builtin, or a function value
+		if tv, ok := fc.info.Types[c.Fun]; ok && tv.IsType() {
+			break
+		}
+		if id, ok := c.Fun.(*ast.Ident); ok {
+			if _, isB := fc.obj(id).(*types.Builtin); isB {
+				break
+			}
+		}
+		useArgs()
+		x.emit("call", fc.p(c.Fun))
+	case isAbort(f):
+		if len(c.Args) == 0 {
+			problem("%s: Abort without format", x.fn)
+		} else {
+			useArgs()
+			x.emit("abort", strings.Trim(fc.p(c.Args[0]), "\""))
+		}
+	case isWarning(f):
+		useArgs()
+		x.emit("warn", "")
+	default:
+		if name, n, ok := wirePrim(f); ok {
+			parts := []string{name}
+			for i := 0; i < n && i < len(c.Args); i++ {
+				parts = append(parts, fc.p(c.Args[i]))
+			}
+			x.emit("send", strings.Join(parts, " "))
+			break
+		}
+		if f.Pkg() != nil {
+			if rel, ok := relPkg(f.Pkg().Path()); ok && fullArgs[rel+"."+f.Name()] {
+				args := make([]string, len(c.Args))
+				for i, a := range c.Args {
+					args[i] = fc.p(a)
+				}
+				x.emit("call", rel+"."+f.Name()+"("+strings.Join(args, ", ")+")")
+				break
+			}
+		}
+		cands, dynamic := callees(fc.info, c)
+		listed, impure := false, false
+		for _, fi := range cands {
+			if fi.listed {
+				listed = true
+			}
+			if isImpure(fi) {
+				impure = true
+			}
+		}
+		switch {
+		case listed:
+			useArgs()
+			x.emit("call", f.Name())
+		case !impure:
+			// pure helper, or not a module function: transparent
+		case !dynamic && len(cands) == 1 && !x.inline[cands[0]]:
+			fi := cands[0]
+			useArgs()
+			x.emit("", "") // invisible: carries the argument texts
+			x.inline[fi] = true
+			items := skeletonOf(fi, false, false, x.fn+"→"+fi.name, x.inline)
+			x.inline[fi] = false
+			for _, it := range items {
+				it.final = true
+				*x.cur = append(*x.cur, it)
+			}
+		default:
+			useArgs()
+			x.emit("call", f.Name())
+		}
+	}
+	for _, fl := range lits {
+		x.closure(fl, "")
+	}
+}
+
+func (x *ex) closure(fl *ast.FuncLit, name string) {
+	x.fc.nclosure++
+	k := x.fc.nclosure
+	i := 0
+	if fl.Type.Params != nil {
+		for _, f := range fl.Type.Params.List {
+			for _, n := range f.Names {
+				i++
+				if o := x.fc.info.Defs[n]; o != nil {
+					x.fc.fixed[o] = fmt.Sprintf("c%dp%d", k, i)
+				}
+			}
+		}
+	}
+	n := x.emit("closure", name)
+	saveRets, saveSw, saveCtl := x.rets, x.inSw, x.ctl
+	x.rets = true
+	x.inSw = 0
+	x.ctl = nil
+	x.under(n, func() { x.block(fl.Body.List) })
+	x.rets, x.inSw, x.ctl = saveRets, saveSw, saveCtl
+}
+
+func (x *ex) expr(e ast.Expr) {
+	if e == nil {
+		return
+	}
+	switch v := e.(type) {
+	case *ast.CallExpr:
+		x.call(v)
+	case *ast.FuncLit:
+		x.closure(v, "")
+	case *ast.BinaryExpr:
+		x.expr(v.X)
+		x.expr(v.Y)
+	case *ast.UnaryExpr:
+		x.expr(v.X)
+	case *ast.ParenExpr:
+		x.expr(v.X)
+	case *ast.StarExpr:
+		x.expr(v.X)
+	case *ast.SelectorExpr:
+		x.expr(v.X)
+	case *ast.IndexExpr:
+		x.expr(v.X)
+		x.expr(v.Index)
+	case *ast.SliceExpr:
+		x.expr(v.X)
+		x.expr(v.Low)
+		x.expr(v.High)
+	case *ast.TypeAssertExpr:
+		x.expr(v.X)
+	case *ast.CompositeLit:
+		for _, el := range v.Elts {
+			x.expr(el)
+		}
+	case *ast.KeyValueExpr:
+		x.expr(v.Value)
+	case *ast.Ident, *ast.BasicLit, *ast.ArrayType, *ast.MapType, *ast.StructType, *ast.FuncType, *ast.InterfaceType, *ast.ChanType:
+	default:
+		problem("%s: expression kind %T not understood: %s", x.fn, e, rawText(e))
+	}
+}
+
+func (x *ex) terminates(l []ast.Stmt) bool {
+	if len(l) == 0 {
+		return false
+	}
+	switch v := l[len(l)-1].(type) {
+	case *ast.ReturnStmt:
+		return true
+	case *ast.BranchStmt:
+		return v.Tok == token.CONTINUE || v.Tok == token.BREAK || v.Tok == token.GOTO
+	case *ast.ExprStmt:
+		if c, ok := v.X.(*ast.CallExpr); ok {
+			if f := staticCallee(x.fc.info, c); f != nil {
+				if isAbort(f) || (f.Pkg() != nil && f.Pkg().Path() == "os" && f.Name() == "Exit") {
+					return true
+				}
+			}
+			if id, ok := c.Fun.(*ast.Ident); ok && id.Name == "panic" {
+				if _, isB := x.fc.obj(id).(*types.Builtin); isB {
+					return true
+				}
+			}
+		}
+	}
+	return false
+}
+
+func (x *ex) block(l []ast.Stmt) {
+	for i, s := range l {
+		// `if c { continue }; REST`  ≡  `if !c { REST }`
+		if v, ok := s.(*ast.IfStmt); ok && v.Else == nil && v.Init == nil && len(v.Body.List) == 1 && x.innerLoop() {
+			if b, ok := v.Body.List[0].(*ast.BranchStmt); ok && b.Tok == token.CONTINUE && b.Label == nil {
+				x.expr(v.Cond)
+				rest := x.sub(func() { x.block(l[i+1:]) })
+				if len(rest) > 0 {
+					n := x.emit("if", x.fc.cond(v.Cond, true))
+					n.kids = rest
+				}
+				return
+			}
+		}
+		x.stmt(s)
+	}
+}
+
+// innerLoop: the innermost enclosing breakable statement is a loop
+func (x *ex) innerLoop() bool { return len(x.ctl) > 0 && x.ctl[len(x.ctl)-1] == "loop" }
+
+func (x *ex) within(kind string, f func()) {
+	x.ctl = append(x.ctl, kind)
+	f()
+	x.ctl = x.ctl[:len(x.ctl)-1]
+}
+
+// textual: the expression is built from text operations the Lean side has a meaning for
+// (strings.*, len, conversions, indexing, operators) and replies; then it is printed exactly.
+// Otherwise only its dependencies are printed (`x ⇐ a, b`): which helper decodes or parses the
+// data, and how its arguments are ordered, is not part of the normal form.
+func (fc *fctx) textual(e ast.Expr) bool {
+	ok := true
+	ast.Inspect(e, func(n ast.Node) bool {
+		switch v := n.(type) {
+		case *ast.FuncLit, *ast.CompositeLit:
+			ok = false
+		case *ast.CallExpr:
+			if tv, isT := fc.info.Types[v.Fun]; isT && tv.IsType() {
+				return true
+			}
+			if id, isID := v.Fun.(*ast.Ident); isID {
+				if _, isB := fc.obj(id).(*types.Builtin); isB && id.Name == "len" {
+					return true
+				}
+			}
+			f := staticCallee(fc.info, v)
+			if _, _, w := wirePrim(f); w {
+				return false // printed as <reply>
+			}
+			if f != nil && f.Pkg() != nil && f.Pkg().Path() == "strings" {
+				return true
+			}
+			ok = false
+		}
+		return ok
+	})
+	return ok
+}
+
+// deps: what an expression depends on: replies, parameters and locals, in order of appearance.
+func (fc *fctx) deps(es []ast.Expr) string {
+	var out []string
+	seen := map[string]bool{}
+	add := func(s string) {
+		if !seen[s] {
+			seen[s] = true
+			out = append(out, s)
+		}
+	}
+	var visit func(e ast.Node, depth int)
+	visit = func(e ast.Node, depth int) {
+		ast.Inspect(e, func(n ast.Node) bool {
+			switch v := n.(type) {
+			case *ast.FuncLit:
+				return false
+			case *ast.KeyValueExpr:
+				visit(v.Value, depth)
+				return false
+			case *ast.CallExpr:
+				if _, _, w := wirePrim(staticCallee(fc.info, v)); w {
+					add("<reply>")
+					return false
+				}
+			case *ast.Ident:
+				o := fc.obj(v)
+				if o == nil || !fc.isLocal(o) || fc.fixed[o] == "recv" {
+					return true
+				}
+				if r := fc.single(o); r != nil && depth < 8 {
+					visit(r, depth+1)
+					return true
+				}
+				add(fc.ident(v))
+			}
+			return true
+		})
+	}
+	for _, e := range es {
+		visit(e, 0)
+	}
+	return strings.Join(out, ", ")
+}
+
+func (x *ex) assign(v *ast.AssignStmt) {
+	fc := x.fc
+	if len(v.Rhs) == 1 && len(v.Lhs) == 1 {
+		if fl, ok := v.Rhs[0].(*ast.FuncLit); ok {
+			if id, isID := v.Lhs[0].(*ast.Ident); isID {
+				if o := fc.obj(id); o != nil {
+					if fc.fixed[o] == "" {
+						fc.nfn++
+						fc.fixed[o] = fmt.Sprintf("f%d", fc.nfn)
+					}
+					x.closure(fl, fc.fixed[o])
+					return
+				}
+			}
+			x.closure(fl, fc.p(v.Lhs[0]))
+			return
+		}
+	}
+	for _, r := range v.Rhs {
+		x.expr(r)
+	}
+	always, isReply := false, false
+	for _, l := range v.Lhs {
+		switch t := l.(type) {
+		case *ast.Ident:
+			o := fc.obj(t)
+			if x.front && o != nil && fc.argVars[o] && fc.isLocal(o) && fc.defs[o] > 1 {
+				always = true
+			}
+		case *ast.SelectorExpr:
+			if watchedFields[t.Sel.Name] {
+				always = true
+			}
+		}
+	}
+	carries := false
+	for _, r := range v.Rhs {
+		if fc.containsWire(r) {
+			carries, isReply = true, true
+		}
+		if fc.readsTainted(r) {
+			carries = true
+		}
+	}
+	// a single-assignment local that is expanded at its uses is not shown
+	if len(v.Lhs) == 1 && !always {
+		if id, ok := v.Lhs[0].(*ast.Ident); ok && fc.single(fc.obj(id)) != nil {
+			return
+		}
+	}
+	if !always && !carries {
+		return
+	}
+	exact := always
+	if !exact {
+		exact = true
+		for _, r := range v.Rhs {
+			if !fc.textual(r) {
+				exact = false
+			}
+		}
+	}
+	lhs := make([]string, len(v.Lhs))
+	for i, l := range v.Lhs {
+		lhs[i] = fc.p(l)
+	}
+	n := x.emit("assign", "")
+	n.isAssign, n.always, n.carries = true, always || isReply, carries
+	n.lhs = strings.Join(lhs, ", ")
+	if exact {
+		rhs := make([]string, len(v.Rhs))
+		for i, r := range v.Rhs {
+			rhs[i] = fc.p(r)
+		}
+		n.rhs = strings.Join(rhs, ", ")
+		n.text = n.lhs + " " + v.Tok.String() + " " + n.rhs
+	} else {
+		// results handed back through arguments count as left side
+		var ins []ast.Expr
+		for _, r := range v.Rhs {
+			if c, ok := stripParen(r).(*ast.CallExpr); ok {
+				outs, in := fc.outParams(c)
+				for _, o := range outs {
+					n.lhs += ", " + fc.p(o)
+				}
+				ins = append(ins, in...)
+				if sel, ok := c.Fun.(*ast.SelectorExpr); ok {
+					ins = append(ins, sel.X)
+				}
+			} else {
+				ins = append(ins, r)
+			}
+		}
+		if v.Tok != token.DEFINE && v.Tok != token.ASSIGN {
+			ins = append(ins, v.Lhs...)
+		}
+		n.rhs = fc.deps(ins)
+		n.text = n.lhs + " ⇐ " + n.rhs
+	}
+	// the root of an in-place update (x.f = …, x[i] = …) is read as well
+	for _, l := range v.Lhs {
+		if _, isID := l.(*ast.Ident); !isID {
+			n.rhs += " " + fc.p(l)
+		}
+	}
+}
+
+func (x *ex) ifStmt(v *ast.IfStmt) {
+	fc := x.fc
+	x.stmt(v.Init)
+	x.expr(v.Cond)
+	thenT := x.terminates(v.Body.List)
+	var elseList []ast.Stmt
+	elseT := false
+	if v.Else != nil {
+		switch e := v.Else.(type) {
+		case *ast.BlockStmt:
+			elseList = e.List
+		default:
+			elseList = []ast.Stmt{e}
+		}
+		elseT = x.terminates(elseList)
+	}
+	switch {
+	case thenT && !elseT:
+		body := x.sub(func() { x.block(v.Body.List) })
+		if len(body) > 0 {
+			n := x.emit("guard", fc.cond(v.Cond, false))
+			n.kids = body
+		}
+		x.block(elseList)
+	case elseT && !thenT && v.Else != nil:
+		body := x.sub(func() { x.block(elseList) })
+		if len(body) > 0 {
+			n := x.emit("guard", fc.cond(v.Cond, true))
+			n.kids = body
+		}
+		x.block(v.Body.List)
+	default:
+		c := fc.cond(v.Cond, false)
+		neg := false
+		if v.Else != nil {
+			if strings.HasPrefix(c, "!") {
+				neg = true
+			} else if b, ok := stripParen(v.Cond).(*ast.BinaryExpr); ok && b.Op == token.NEQ {
+				neg = true
+			}
+		}
+		first, second := v.Body.List, elseList
+		if neg {
+			c = fc.cond(v.Cond, true)
+			first, second = elseList, v.Body.List
+		}
+		a := x.sub(func() { x.block(first) })
+		b := x.sub(func() { x.block(second) })
+		if len(a)+len(b) == 0 {
+			return
+		}
+		n := x.emit("if", c)
+		n.kids = a
+		if len(b) > 0 {
+			e := x.emit("else", "")
+			e.kids = b
+		}
+	}
+}
+
+func (x *ex) stmt(s ast.Stmt) {
+	fc := x.fc
+	switch v := s.(type) {
+	case nil:
+	case *ast.ExprStmt:
+		x.expr(v.X)
+	case *ast.AssignStmt:
+		x.assign(v)
+	case *ast.DeclStmt:
+		if gd, ok := v.Decl.(*ast.GenDecl); ok {
+			for _, sp := range gd.Specs {
+				if vs, ok := sp.(*ast.ValueSpec); ok {
+					for _, val := range vs.Values {
+						x.expr(val)
+					}
+				}
+			}
+		}
+	case *ast.IfStmt:
+		x.ifStmt(v)
+	case *ast.ForStmt:
+		x.stmt(v.Init)
+		x.expr(v.Cond)
+		body := x.sub(func() { x.within("loop", func() { x.block(v.Body.List); x.stmt(v.Post) }) })
+		if len(body) == 0 {
+			return
+		}
+		hdr := ""
+		if v.Cond != nil {
+			hdr = fc.cond(v.Cond, false)
+		}
+		n := x.emit("for", hdr)
+		n.kids = body
+	case *ast.RangeStmt:
+		x.expr(v.X)
+		body := x.sub(func() { x.within("loop", func() { x.block(v.Body.List) }) })
+		if len(body) == 0 {
+			return
+		}
+		n := x.emit("for", "range "+fc.p(v.X))
+		n.kids = body
+	case *ast.ReturnStmt:
+		for _, r := range v.Results {
+			x.expr(r)
+		}
+		rets := x.rets || (x.front && x.inSw > 0)
+		if !rets {
+			return
+		}
+		parts := make([]string, len(v.Results))
+		for i, r := range v.Results {
+			if c, ok := r.(*ast.CallExpr); ok {
+				f := staticCallee(fc.info, c)
+				_, _, wire := wirePrim(f)
+				switch {
+				case wire:
+					parts[i] = "<reply>"
+				case f != nil && f.Pkg() != nil && f.Pkg().Path() == "strings":
+					parts[i] = fc.p(r)
+				case f != nil:
+					parts[i] = f.Name() + "(…)"
+				default:
+					parts[i] = fc.p(r)
+				}
+			} else {
+				parts[i] = fc.p(r)
+			}
+		}
+		x.emit("ret", strings.Join(parts, ", "))
+	case *ast.DeferStmt:
+		body := x.sub(func() { x.call(v.Call) })
+		if len(body) > 0 {
+			n := x.emit("defer", "")
+			n.kids = body
+		}
+	case *ast.SwitchStmt:
+		x.stmt(v.Init)
+		x.expr(v.Tag)
+		var cases []*node
+		for _, c := range v.Body.List {
+			cc := c.(*ast.CaseClause)
+			hdr := "default"
+			if cc.List != nil {
+				parts := []string{}
+				for _, e := range cc.List {
+					if v.Tag == nil {
+						parts = append(parts, fc.cond(e, false))
+					} else {
+						parts = append(parts, fc.p(e))
+					}
+				}
+				hdr = strings.Join(parts, ", ")
+			}
+			x.inSw++
+			its := x.sub(func() { x.within("switch", func() { x.block(cc.Body) }) })
+			x.inSw--
+			if len(its) > 0 || x.front {
+				cases = append(cases, &node{kind: "case", text: hdr, kids: its})
+			}
+		}
+		if len(cases) == 0 {
+			return
+		}
+		tag := ""
+		if v.Tag != nil {
+			tag = fc.p(v.Tag)
+		}
+		n := x.emit("switch", tag)
+		n.kids = cases
+	case *ast.BlockStmt:
+		x.block(v.List)
+	case *ast.BranchStmt:
+		switch {
+		case x.front && x.inSw > 0 && v.Tok == token.FALLTHROUGH:
+			x.emit("fallthrough", "")
+		case v.Tok == token.BREAK && (x.innerLoop() || v.Label != nil):
+			x.emit("break", "")
+		case v.Tok == token.CONTINUE:
+			x.emit("continue", "")
+		}
+	case *ast.IncDecStmt, *ast.EmptyStmt:
+	case *ast.LabeledStmt:
+		x.stmt(v.Stmt)
+	case *ast.TypeSwitchStmt, *ast.GoStmt, *ast.SelectStmt, *ast.SendStmt:
+		its := x.sub(func() {
+			ast.Inspect(v, func(n ast.Node) bool {
+				if c, ok := n.(*ast.CallExpr); ok {
+					x.call(c)
+				}
+				return true
+			})
+		})
+		if len(its) > 0 {
+			problem("%s: statement kind %T containing calls is not understood: %s", x.fn, s, rawText(s))
+		}
+	default:
+		problem("%s: statement kind %T not understood", x.fn, s)
+	}
+}
+
+var phRe = regexp.MustCompile("\x01(\\d+)\x02")
+var fnameRe = regexp.MustCompile(`^f\d+$`)
+
+func placeholders(s string) []int {
+	var out []int
+	for _, m := range phRe.FindAllStringSubmatch(s, -1) {
+		n, _ := strconv.Atoi(m[1])
+		out = append(out, n)
+	}
+	return out
+}
+
+// skeletonOf: the finished skeleton tree of one function.
+func skeletonOf(fi *fnInfo, rets, front bool, fn string, inline map[*fnInfo]bool) []*node {
+	fc := newCtx(fi)
+	var top []*node
+	x := &ex{cur: &top, rets: rets, front: front, fn: fn, fc: fc, inline: inline}
+	x.block(fi.decl.Body.List)
+
+	var assigns []*node
+	var collect func(l []*node)
+	collect = func(l []*node) {
+		for _, n := range l {
+			if n.final {
+				continue
+			}
+			if n.isAssign {
+				assigns = append(assigns, n)
+			}
+			collect(n.kids)
+		}
+	}
+	collect(top)
+	keep := map[*node]bool{}
+	live := map[*node]bool{}
+	// hard: shown for its own sake.  break / continue are shown iff their loop is.
+	var hard func(n *node) bool
+	hard = func(n *node) bool {
+		if n.final {
+			return true
+		}
+		if n.isAssign {
+			return keep[n]
+		}
+		switch n.kind {
+		case "send", "call", "abort", "warn", "ret", "fallthrough", "":
+			return true
+		case "break", "continue":
+			return false
+		case "switch":
+			if front {
+				return true
+			}
+		case "closure":
+			if fnameRe.MatchString(n.text) {
+				return true
+			}
+		}
+		for _, k := range n.kids {
+			if hard(k) {
+				return true
+			}
+		}
+		return false
+	}
+	var mark func(l []*node, loopLive bool) bool
+	mark = func(l []*node, loopLive bool) bool {
+		any := false
+		for i, n := range l {
+			lv := false
+			switch {
+			case n.final:
+				lv = true
+			case n.isAssign:
+				lv = keep[n]
+			case n.kind == "break" || n.kind == "continue":
+				lv = loopLive
+			case n.kind == "for":
+				lv = mark(n.kids, hard(n))
+			case n.kind == "closure":
+				lv = mark(n.kids, false) || fnameRe.MatchString(n.text)
+			case n.kind == "case":
+				lv = mark(n.kids, loopLive) || front
+			default:
+				sub := mark(n.kids, loopLive)
+				lv = sub || hard(n)
+			}
+			if lv && n.kind == "else" && i > 0 && l[i-1].kind == "if" {
+				live[l[i-1]] = true
+			}
+			live[n] = lv
+			any = any || lv
+		}
+		return any
+	}
+	for changed := true; changed; {
+		changed = false
+		for n := range live {
+			delete(live, n)
+		}
+		mark(top, false)
+		relevant := map[int]bool{}
+		for n, lv := range live {
+			if !lv || n.final {
+				continue
+			}
+			if n.isAssign {
+				for _, i := range placeholders(n.rhs) {
+					relevant[i] = true
+				}
+				continue
+			}
+			for _, i := range placeholders(n.text) {
+				relevant[i] = true
+			}
+			for _, e := range n.extra {
+				for _, i := range placeholders(e) {
+					relevant[i] = true
+				}
+			}
+		}
+		for _, a := range assigns {
+			if keep[a] {
+				continue
+			}
+			k := a.always
+			if !k && a.carries {
+				for _, i := range placeholders(a.lhs) {
+					if relevant[i] {
+						k = true
+					}
+				}
+			}
+			if k {
+				keep[a] = true
+				changed = true
+			}
+		}
+	}
+	var prune func(l []*node) []*node
+	prune = func(l []*node) []*node {
+		var out []*node
+		for _, n := range l {
+			if !live[n] || n.kind == "" {
+				continue
+			}
+			if !n.final {
+				n.kids = prune(n.kids)
+			}
+			out = append(out, n)
+		}
+		return out
+	}
+	top = prune(top)
+	// names in the order of first appearance
+	names := map[int]string{}
+	nr, nv := 0, 0
+	rename := func(s string) string {
+		return phRe.ReplaceAllStringFunc(s, func(m string) string {
+			i, _ := strconv.Atoi(m[1 : len(m)-1])
+			if nm, ok := names[i]; ok {
+				return nm
+			}
+			var nm string
+			if fc.reply[fc.lazy[i]] {
+				nr++
+				nm = fmt.Sprintf("r%d", nr)
+			} else {
+				nv++
+				nm = fmt.Sprintf("v%d", nv)
+			}
+			names[i] = nm
+			return nm
+		})
+	}
+	var walk func(l []*node)
+	walk = func(l []*node) {
+		for _, n := range l {
+			if n.final {
+				continue
+			}
+			n.text = rename(n.text)
+			walk(n.kids)
+		}
+	}
+	walk(top)
+	return top
+}
 
 type item struct {
 	depth int
@@ -41,507 +1844,10 @@ type item struct {
 	text  string
 }
 
-type target struct {
-	file string // relative to go/pkg
-	recv string // "" or receiver type name
-	name string
-	rets bool // emit return statements
-	// front end (drc.Main, doapprove.Main): every switch is shown completely (all clauses, also
-	// empty ones, `fallthrough`, the returns inside), every flag definition is shown
-	front bool
-}
-
-var targets = []target{
-	{"device/main.go", "", "ApproveOrCompare", true, false},
-	{"device/main.go", "", "CompareFiles", true, false},
-	{"device/main.go", "state", "approve", true, false},
-	{"device/main.go", "state", "compare", true, false},
-	{"device/main.go", "state", "compareDevice", true, false},
-	{"device/main.go", "state", "loadDevice", true, false},
-	{"device/main.go", "state", "applyCommands", true, false},
-	{"device/main.go", "state", "getCompare", true, false},
-	{"drc/main.go", "", "Main", false, true},
-	{"doapprove/main.go", "", "Main", false, true},
-	{"program/config.go", "", "LoadConfig", true, true},
-	{"cisco/device.go", "State", "LoginEnable", true, false},
-	{"cisco/device.go", "State", "checkBanner", true, false},
-	{"cisco/device.go", "State", "GetErrUnmanaged", true, false},
-	{"asa/device.go", "State", "LoadDevice", true, false},
-	{"asa/device.go", "State", "setTerminal", true, false},
-	{"asa/device.go", "State", "logVersion", true, false},
-	{"asa/device.go", "State", "checkDeviceName", true, false},
-	{"ios/device.go", "State", "LoadDevice", true, false},
-	{"ios/device.go", "State", "setTerminal", true, false},
-	{"ios/device.go", "State", "logVersion", true, false},
-	{"ios/device.go", "State", "checkDeviceName", true, false},
-	{"linux/device.go", "State", "LoadDevice", true, false},
-	{"linux/device.go", "State", "loginEnable", true, false},
-	{"linux/device.go", "State", "logVersion", true, false},
-	{"linux/device.go", "State", "checkDeviceName", true, false},
-	{"linux/device.go", "State", "checkBanner", true, false},
-	{"linux/device.go", "State", "getDeviceRoutes", true, false},
-	{"linux/device.go", "State", "getDeviceIPTables", true, false},
-	{"linux/device.go", "State", "GetErrUnmanaged", true, false},
-	{"linux/device.go", "State", "GetChanges", true, false},
-	{"panos/device.go", "State", "LoadDevice", true, false},
-	{"panos/device.go", "State", "getAPIKey", true, false},
-	{"panos/device.go", "State", "checkHA", true, false},
-	{"panos/device.go", "State", "GetChanges", true, false},
-	{"panos/device.go", "State", "checkUnmanaged", true, false},
-	{"panos/device.go", "State", "GetErrUnmanaged", true, false},
-	{"panos/device.go", "State", "httpPrefixGetLog", true, false},
-	{"panos/device.go", "State", "httpGet", true, false},
-	{"panos/config.go", "PanConfig", "checkDeviceName", true, false},
-	{"nsx/device.go", "State", "LoadDevice", true, false},
-	{"nsx/device.go", "State", "getRawJSON", true, false},
-	{"nsx/device.go", "State", "sendRequest", true, false},
-	{"nsx/device.go", "State", "GetErrUnmanaged", true, false},
-	{"nsx/device.go", "State", "GetChanges", true, false},
-	{"httpdevice/device.go", "", "TryReachableHTTPLogin", true, false},
-	{"cisco/diff.go", "State", "GetChanges", true, false},
-}
-
-// Primitives that put something on the wire (or wait for the device); number of leading
-// arguments that are shown.
-var sendPrims = map[string]int{
-	"WaitLogin": 1, "WaitShort": 1, "IssueCmd": 2, "SendCmd": 1, "GetCmdOutput": 1, "Send": 1,
-	"GetOutput": 0, "TryPrompt": 0,
-	"httpPrefixGetLog": 1, "httpGet": 1, "sendRequest": 2, "PostForm": 1, "Get": 1, "Do": 1,
-}
-
-// Calls that are noise for the skeleton: pure library helpers and logging.
-var noisePkgs = map[string]bool{
-	"strings": true, "fmt": true, "regexp": true, "errors": true, "os": true, "url": true, "xml": true,
-	"json": true, "path": true, "filepath": true, "time": true, "io": true, "bytes": true, "slices": true,
-	"maps": true, "strconv": true, "cookiejar": true, "codefiles": true, "mytime": true, "http": true,
-	"pflag": true, "exec": true,
-}
-var noiseFuncs = map[string]bool{
-	"append": true, "len": true, "new": true, "make": true, "string": true, "panic": true, "recover": true,
-	"byte": true, "copy": true, "int": true, "any": true,
-}
-var noiseQualified = map[string]bool{
-	"errlog.Info": true, "errlog.DoLog": true, "errlog.SetStderrLog": true, "errlog.MoveLogFile": true,
-	"errlog.CreateWithPath": true,
-}
-
-// Receivers whose methods are library calls (regexps, flag sets, builders, HTTP plumbing).
-var noiseRecv = map[string]bool{
-	"rx": true, "re": true, "fs": true, "params": true, "base": true, "v": true, "resp": true,
-	"passRE": true, "keyRE": true, "apiRE": true, "collect": true, "jar": true, "req": true,
-	"bannerRe": true, "u": true, "logFH": true, "fh": true, "hLog": true, "lockFH": true,
-	"cmd": true, "file": true, "w": true, "ha": true, "j": true,
-}
-
-// Calls shown with their complete argument list.
-var fullArgs = map[string]bool{
-	"device.ApproveOrCompare": true, "device.CompareFiles": true, "errlog.HandleAbort": false,
-}
-
-// Assignments that are kept (text of the left-hand side).
-var watch = map[string]bool{
-	"bannerLines": true, "s.errUnmanaged": true, "devName": true, "isCompare": true, "action": true,
-	"logFile": true, "out": true, "lines": true, "stdPrompt": true, "passPrompt": true, "name": true, "c.CheckBanner": true, "err": false,
-}
-
-// additionally watched in the front ends and in LoadConfig
-var frontWatch = map[string]bool{"words": true, "key": true}
-
-var problems []string
-
-func problem(format string, a ...any) { problems = append(problems, fmt.Sprintf(format, a...)) }
-
-var fset = token.NewFileSet()
-
-func text(n ast.Node) string {
-	var buf bytes.Buffer
-	printer.Fprint(&buf, fset, n)
-	t := strings.Join(strings.Fields(buf.String()), " ")
-	t = strings.ReplaceAll(t, "( ", "(")
-	t = strings.ReplaceAll(t, ", }", " }")
-	t = strings.ReplaceAll(t, ", )", ")")
-	return t
-}
-
-type ex struct {
-	items    []item
-	rets     bool
-	front    bool
-	inSwitch int
-	closures map[string]bool
-	fn       string
-}
-
-func (x *ex) emit(d int, kind, txt string) { x.items = append(x.items, item{d, kind, txt}) }
-
-func (x *ex) sub(f func()) []item {
-	save := x.items
-	x.items = nil
-	f()
-	got := x.items
-	x.items = save
-	return got
-}
-
-// assignText: the statement text; a call of a wire primitive on the right-hand side (whose item
-// precedes) is abbreviated to <reply>.
-func assignText(v *ast.AssignStmt) string {
-	if len(v.Rhs) != 1 {
-		return text(v)
-	}
-	lhs := make([]string, len(v.Lhs))
-	for i, l := range v.Lhs {
-		lhs[i] = text(l)
-	}
-	return strings.Join(lhs, ", ") + " " + v.Tok.String() + " " + abbrevExpr(v.Rhs[0])
-}
-
-func abbrevExpr(e ast.Expr) string {
-	if c, ok := e.(*ast.CallExpr); ok {
-		qual, name := calleeName(c.Fun)
-		if sendPrimOf(qual, name) >= 0 {
-			return "<reply>"
-		}
-		if qual == "strings" || qual == "" {
-			args := make([]string, len(c.Args))
-			for i, a := range c.Args {
-				args[i] = abbrevExpr(a)
-			}
-			return text(c.Fun) + "(" + strings.Join(args, ", ") + ")"
-		}
-	}
-	return text(e)
-}
-
-func argText(e ast.Expr) string {
-	if bl, ok := e.(*ast.BasicLit); ok && bl.Kind == token.STRING {
-		s, err := strconv.Unquote(bl.Value)
-		if err == nil {
-			return "\"" + s + "\""
-		}
-	}
-	return text(e)
-}
-
-func calleeName(fun ast.Expr) (qual, name string) {
-	switch f := fun.(type) {
-	case *ast.Ident:
-		return "", f.Name
-	case *ast.SelectorExpr:
-		return text(f.X), f.Sel.Name
-	case *ast.ParenExpr:
-		return calleeName(f.X)
-	}
-	return "?", text(fun)
-}
-
-func (x *ex) call(c *ast.CallExpr, d int) {
-	// arguments first (evaluated before the call); function literals after the call item
-	var lits []*ast.FuncLit
-	for _, a := range c.Args {
-		if fl, ok := a.(*ast.FuncLit); ok {
-			lits = append(lits, fl)
-			continue
-		}
-		x.expr(a, d)
-	}
-	if sel, ok := c.Fun.(*ast.SelectorExpr); ok {
-		x.expr(sel.X, d)
-	}
-	switch c.Fun.(type) {
-	case *ast.ArrayType, *ast.MapType, *ast.InterfaceType:
-		return // conversion
-	}
-	qual, name := calleeName(c.Fun)
-	q := name
-	if qual != "" {
-		q = qual + "." + name
-	}
-	switch {
-	case name == "Abort" && (qual == "errlog" || qual == ""):
-		if len(c.Args) == 0 {
-			problem("%s: Abort without format", x.fn)
-		} else {
-			x.emit(d, "abort", strings.Trim(argText(c.Args[0]), "\""))
-		}
-	case sendPrimOf(qual, name) >= 0:
-		n := sendPrimOf(qual, name)
-		parts := []string{name}
-		for i := 0; i < n && i < len(c.Args); i++ {
-			parts = append(parts, argText(c.Args[i]))
-		}
-		x.emit(d, "send", strings.Join(parts, " "))
-	case noiseFuncs[q] || noiseQualified[q]:
-	case qual != "" && (noisePkgs[qual] || noiseRecv[qual]):
-	case qual != "" && strings.Contains(qual, ".") && noiseRecv[strings.SplitN(qual, ".", 2)[0]]:
-	default:
-		if full, ok := fullArgs[q]; ok && full {
-			x.emit(d, "call", text(c))
-		} else if qual == "device" || qual == "status" || qual == "program" || qual == "httpdevice" || qual == "console" {
-			x.emit(d, "call", q)
-		} else {
-			x.emit(d, "call", name)
-		}
-	}
-	for _, fl := range lits {
-		x.emit(d, "closure", "")
-		x.stmts(fl.Body.List, d+1)
-	}
-}
-
-// sendPrimOf: -1 if (qual,name) is not a wire primitive, else the number of shown arguments.
-// `Get`/`Do`/`PostForm` count only on an HTTP client receiver.
-func sendPrimOf(qual, name string) int {
-	n, ok := sendPrims[name]
-	if !ok {
-		return -1
-	}
-	switch name {
-	case "Get", "Do", "PostForm":
-		if !strings.HasSuffix(qual, "client") {
-			return -1
-		}
-	case "Send":
-		if !(strings.HasSuffix(qual, "Conn") || strings.HasSuffix(qual, "conn") || strings.HasSuffix(qual, "con")) {
-			return -1
-		}
-	}
-	return n
-}
-
-func (x *ex) expr(e ast.Expr, d int) {
-	if e == nil {
-		return
-	}
-	switch v := e.(type) {
-	case *ast.CallExpr:
-		x.call(v, d)
-	case *ast.FuncLit:
-		x.emit(d, "closure", "")
-		x.stmts(v.Body.List, d+1)
-	case *ast.BinaryExpr:
-		x.expr(v.X, d)
-		x.expr(v.Y, d)
-	case *ast.UnaryExpr:
-		x.expr(v.X, d)
-	case *ast.ParenExpr:
-		x.expr(v.X, d)
-	case *ast.StarExpr:
-		x.expr(v.X, d)
-	case *ast.SelectorExpr:
-		x.expr(v.X, d)
-	case *ast.IndexExpr:
-		x.expr(v.X, d)
-		x.expr(v.Index, d)
-	case *ast.SliceExpr:
-		x.expr(v.X, d)
-		x.expr(v.Low, d)
-		x.expr(v.High, d)
-	case *ast.TypeAssertExpr:
-		x.expr(v.X, d)
-	case *ast.CompositeLit:
-		for _, el := range v.Elts {
-			x.expr(el, d)
-		}
-	case *ast.KeyValueExpr:
-		x.expr(v.Value, d)
-	case *ast.Ident, *ast.BasicLit, *ast.ArrayType, *ast.MapType, *ast.StructType, *ast.FuncType, *ast.InterfaceType:
-	default:
-		problem("%s: expression kind %T not understood: %s", x.fn, e, text(e))
-	}
-}
-
-func (x *ex) stmts(l []ast.Stmt, d int) {
-	for _, s := range l {
-		x.stmt(s, d)
-	}
-}
-
-func (x *ex) stmt(s ast.Stmt, d int) {
-	switch v := s.(type) {
-	case nil:
-	case *ast.ExprStmt:
-		x.expr(v.X, d)
-	case *ast.AssignStmt:
-		if len(v.Rhs) == 1 && len(v.Lhs) == 1 {
-			if fl, ok := v.Rhs[0].(*ast.FuncLit); ok {
-				name := text(v.Lhs[0])
-				x.closures[name] = true
-				x.emit(d, "closure", name)
-				x.stmts(fl.Body.List, d+1)
-				return
-			}
-		}
-		for _, r := range v.Rhs {
-			x.expr(r, d)
-		}
-		emitted := false
-		for _, l := range v.Lhs {
-			if watch[text(l)] || (x.front && frontWatch[text(l)]) {
-				x.emit(d, "assign", assignText(v))
-				emitted = true
-				break
-			}
-		}
-		if x.front && !emitted && len(v.Rhs) == 1 {
-			// flag definitions: x := fs.BoolP(…), fs.StringP(…)
-			if c, ok := v.Rhs[0].(*ast.CallExpr); ok {
-				if q, _ := calleeName(c.Fun); q == "fs" {
-					x.emit(d, "assign", text(v))
-				}
-			}
-		}
-	case *ast.DeclStmt:
-		if gd, ok := v.Decl.(*ast.GenDecl); ok {
-			for _, sp := range gd.Specs {
-				if vs, ok := sp.(*ast.ValueSpec); ok {
-					for _, val := range vs.Values {
-						x.expr(val, d)
-					}
-					for _, n := range vs.Names {
-						if watch[n.Name] && len(vs.Values) > 0 {
-							x.emit(d, "assign", text(vs))
-						}
-					}
-				}
-			}
-		}
-	case *ast.IfStmt:
-		x.stmt(v.Init, d)
-		x.expr(v.Cond, d)
-		body := x.sub(func() { x.stmts(v.Body.List, d+1) })
-		var els []item
-		if v.Else != nil {
-			els = x.sub(func() {
-				switch e := v.Else.(type) {
-				case *ast.BlockStmt:
-					x.stmts(e.List, d+1)
-				default:
-					x.stmt(e, d+1)
-				}
-			})
-		}
-		if len(body)+len(els) == 0 {
-			return
-		}
-		x.emit(d, "if", text(v.Cond))
-		x.items = append(x.items, body...)
-		if len(els) > 0 {
-			x.emit(d, "else", "")
-			x.items = append(x.items, els...)
-		}
-	case *ast.ForStmt:
-		x.stmt(v.Init, d)
-		x.expr(v.Cond, d)
-		body := x.sub(func() { x.stmts(v.Body.List, d+1); x.stmt(v.Post, d+1) })
-		if len(body) == 0 {
-			return
-		}
-		hdr := ""
-		if v.Cond != nil {
-			hdr = text(v.Cond)
-		}
-		x.emit(d, "for", hdr)
-		x.items = append(x.items, body...)
-	case *ast.RangeStmt:
-		x.expr(v.X, d)
-		body := x.sub(func() { x.stmts(v.Body.List, d+1) })
-		if len(body) == 0 {
-			return
-		}
-		x.emit(d, "for", "range "+text(v.X))
-		x.items = append(x.items, body...)
-	case *ast.ReturnStmt:
-		for _, r := range v.Results {
-			x.expr(r, d)
-		}
-		rets := x.rets || (x.front && x.inSwitch > 0)
-		if rets && len(v.Results) == 0 {
-			x.emit(d, "ret", "")
-		}
-		if rets && len(v.Results) > 0 {
-			parts := make([]string, len(v.Results))
-			for i, r := range v.Results {
-				if c, ok := r.(*ast.CallExpr); ok {
-					// the call item precedes; keep the text short (string predicates are kept in full)
-					q, n := calleeName(c.Fun)
-					if q == "strings" {
-						parts[i] = text(r)
-					} else {
-						parts[i] = n + "(…)"
-					}
-				} else {
-					parts[i] = text(r)
-				}
-			}
-			x.emit(d, "ret", strings.Join(parts, ", "))
-		}
-	case *ast.DeferStmt:
-		body := x.sub(func() { x.call(v.Call, d+1) })
-		if len(body) > 0 {
-			x.emit(d, "defer", "")
-			x.items = append(x.items, body...)
-		}
-	case *ast.SwitchStmt:
-		x.stmt(v.Init, d)
-		x.expr(v.Tag, d)
-		type cl struct {
-			hdr   string
-			items []item
-		}
-		var cls []cl
-		for _, c := range v.Body.List {
-			cc := c.(*ast.CaseClause)
-			hdr := "default"
-			if cc.List != nil {
-				parts := []string{}
-				for _, e := range cc.List {
-					parts = append(parts, text(e))
-				}
-				hdr = strings.Join(parts, ", ")
-			}
-			x.inSwitch++
-			its := x.sub(func() { x.stmts(cc.Body, d+2) })
-			x.inSwitch--
-			if len(its) > 0 || x.front {
-				cls = append(cls, cl{hdr, its})
-			}
-		}
-		if len(cls) == 0 {
-			return
-		}
-		tag := ""
-		if v.Tag != nil {
-			tag = text(v.Tag)
-		}
-		x.emit(d, "switch", tag)
-		for _, c := range cls {
-			x.emit(d+1, "case", c.hdr)
-			x.items = append(x.items, c.items...)
-		}
-	case *ast.BlockStmt:
-		x.stmts(v.List, d)
-	case *ast.BranchStmt:
-		if x.front && x.inSwitch > 0 && v.Tok == token.FALLTHROUGH {
-			x.emit(d, "fallthrough", "")
-		}
-	case *ast.IncDecStmt, *ast.EmptyStmt:
-	case *ast.LabeledStmt:
-		x.stmt(v.Stmt, d)
-	case *ast.TypeSwitchStmt, *ast.GoStmt, *ast.SelectStmt, *ast.SendStmt:
-		its := x.sub(func() {
-			ast.Inspect(v, func(n ast.Node) bool {
-				if c, ok := n.(*ast.CallExpr); ok {
-					x.call(c, d)
-				}
-				return true
-			})
-		})
-		if len(its) > 0 {
-			problem("%s: statement kind %T containing calls is not understood: %s", x.fn, s, text(s))
-		}
-	default:
-		problem("%s: statement kind %T not understood", x.fn, s)
+func flatten(l []*node, d int, out *[]item) {
+	for _, n := range l {
+		*out = append(*out, item{d, n.kind, n.text})
+		flatten(n.kids, d+1, out)
 	}
 }
 
@@ -572,35 +1878,74 @@ func leanStr(s string) string {
 	return b.String()
 }
 
-func recvName(fd *ast.FuncDecl) string {
-	if fd.Recv == nil || len(fd.Recv.List) == 0 {
-		return ""
-	}
-	t := fd.Recv.List[0].Type
-	if st, ok := t.(*ast.StarExpr); ok {
-		t = st.X
-	}
-	return text(t)
-}
-
 func main() {
 	repo := flag.String("repo", "/repo", "repository root")
 	out := flag.String("out", "", "Lean file to write (default stdout)")
 	flag.Parse()
-	pkgRoot := filepath.Join(*repo, "go", "pkg")
 
-	files := map[string]*ast.File{}
-	parse := func(rel string) *ast.File {
-		if f, ok := files[rel]; ok {
-			return f
+	cfg := &packages.Config{
+		Mode: packages.NeedName | packages.NeedFiles | packages.NeedSyntax | packages.NeedTypes | packages.NeedTypesInfo |
+			packages.NeedImports | packages.NeedDeps,
+		Dir: filepath.Join(*repo, "go"),
+	}
+	pkgs, err := packages.Load(cfg, "./pkg/...")
+	if err != nil {
+		fmt.Fprintln(os.Stderr, "gateskel: load:", err)
+		os.Exit(1)
+	}
+	sort.Slice(pkgs, func(i, j int) bool { return pkgs[i].PkgPath < pkgs[j].PkgPath })
+	for _, p := range pkgs {
+		for _, e := range p.Errors {
+			problem("package %s: %v", p.PkgPath, e)
 		}
-		f, err := parser.ParseFile(fset, filepath.Join(pkgRoot, rel), nil, parser.SkipObjectResolution)
-		if err != nil {
-			problem("parse %s: %v", rel, err)
-			return nil
+		if fset == nil {
+			fset = p.Fset
 		}
-		files[rel] = f
-		return f
+		rel, ok := relPkg(p.PkgPath)
+		if !ok || p.Types == nil {
+			continue
+		}
+		scope := p.Types.Scope()
+		for _, nm := range scope.Names() {
+			if tn, ok := scope.Lookup(nm).(*types.TypeName); ok && !tn.IsAlias() {
+				if n, ok := tn.Type().(*types.Named); ok {
+					namedTypes = append(namedTypes, n)
+				}
+			}
+		}
+		for _, f := range p.Syntax {
+			for _, d := range f.Decls {
+				fd, ok := d.(*ast.FuncDecl)
+				if !ok || fd.Body == nil {
+					continue
+				}
+				obj, _ := p.TypesInfo.Defs[fd.Name].(*types.Func)
+				if obj == nil {
+					continue
+				}
+				_, rn := recvTypeName(obj)
+				fi := &fnInfo{pkg: rel, recv: rn, name: fd.Name.Name, decl: fd, info: p.TypesInfo, obj: obj}
+				declOf[obj] = fi
+				allFns = append(allFns, fi)
+			}
+		}
+	}
+	if fset == nil {
+		fmt.Fprintln(os.Stderr, "gateskel: no packages")
+		os.Exit(1)
+	}
+	find := func(t target) *fnInfo {
+		for _, fi := range allFns {
+			if fi.pkg == t.pkg && fi.recv == t.recv && fi.name == t.name {
+				return fi
+			}
+		}
+		return nil
+	}
+	for _, t := range targets {
+		if fi := find(t); fi != nil {
+			fi.listed = true
+		}
 	}
 
 	type fnOut struct {
@@ -609,82 +1954,51 @@ func main() {
 	}
 	var outs []fnOut
 	for _, t := range targets {
-		f := parse(t.file)
-		if f == nil {
-			continue
-		}
-		var found *ast.FuncDecl
-		for _, d := range f.Decls {
-			if fd, ok := d.(*ast.FuncDecl); ok && fd.Name.Name == t.name && recvName(fd) == t.recv && fd.Body != nil {
-				found = fd
+		fi := find(t)
+		if fi == nil {
+			key := t.pkg + "." + t.name
+			if t.recv != "" {
+				key = t.pkg + ".(*" + t.recv + ")." + t.name
 			}
-		}
-		pkg := filepath.Dir(t.file)
-		key := pkg + "." + t.name
-		if t.recv != "" {
-			key = pkg + ".(*" + t.recv + ")." + t.name
-		}
-		if found == nil {
-			problem("function %s not found in %s", key, t.file)
+			problem("function %s not found in go/pkg/%s", key, t.pkg)
 			continue
 		}
-		x := &ex{rets: t.rets, front: t.front, closures: map[string]bool{}, fn: key}
-		x.stmts(found.Body.List, 0)
-		outs = append(outs, fnOut{key, x.items})
+		tree := skeletonOf(fi, t.rets, t.front, fi.key(), map[*fnInfo]bool{fi: true})
+		var items []item
+		flatten(tree, 0, &items)
+		outs = append(outs, fnOut{fi.key(), items})
 	}
 
-	// every write to a field errUnmanaged and every GetErrUnmanaged implementation in go/pkg
 	type kv struct{ k, v string }
 	var writes, gates []kv
-	var goFiles []string
-	filepath.Walk(pkgRoot, func(p string, info os.FileInfo, err error) error {
-		if err == nil && !info.IsDir() && strings.HasSuffix(p, ".go") && !strings.HasSuffix(p, "_test.go") {
-			goFiles = append(goFiles, p)
-		}
-		return nil
-	})
-	sort.Strings(goFiles)
-	for _, p := range goFiles {
-		rel, _ := filepath.Rel(pkgRoot, p)
-		// hook files of the verification machinery are add-only exports; they are scanned too
-		f := parse(rel)
-		if f == nil {
-			continue
-		}
-		pkg := filepath.Dir(rel)
-		for _, d := range f.Decls {
-			fd, ok := d.(*ast.FuncDecl)
-			if !ok || fd.Body == nil {
-				continue
-			}
-			key := pkg + "." + fd.Name.Name
-			if r := recvName(fd); r != "" {
-				key = pkg + ".(*" + r + ")." + fd.Name.Name
-			}
-			ast.Inspect(fd.Body, func(n ast.Node) bool {
-				switch v := n.(type) {
-				case *ast.AssignStmt:
-					for _, l := range v.Lhs {
-						if strings.HasSuffix(text(l), "errUnmanaged") {
-							writes = append(writes, kv{key, text(v)})
-						}
-					}
-				case *ast.UnaryExpr:
-					if v.Op == token.AND && strings.HasSuffix(text(v.X), "errUnmanaged") {
-						problem("%s: address of errUnmanaged taken", key)
+	sort.SliceStable(allFns, func(i, j int) bool { return allFns[i].key() < allFns[j].key() })
+	for _, fi := range allFns {
+		fd := fi.decl
+		key := fi.key()
+		fc := newCtx(fi)
+		ast.Inspect(fd.Body, func(n ast.Node) bool {
+			switch v := n.(type) {
+			case *ast.AssignStmt:
+				for _, l := range v.Lhs {
+					if sel, ok := l.(*ast.SelectorExpr); ok && sel.Sel.Name == "errUnmanaged" {
+						writes = append(writes, kv{key, rawText(v)})
 					}
 				}
-				return true
-			})
-			if fd.Name.Name == "GetErrUnmanaged" {
-				if len(fd.Body.List) == 1 {
-					if rs, ok := fd.Body.List[0].(*ast.ReturnStmt); ok && len(rs.Results) == 1 {
-						gates = append(gates, kv{key, text(rs.Results[0])})
-						continue
-					}
+			case *ast.UnaryExpr:
+				if sel, ok := v.X.(*ast.SelectorExpr); ok && v.Op == token.AND && sel.Sel.Name == "errUnmanaged" {
+					problem("%s: address of errUnmanaged taken", key)
 				}
-				gates = append(gates, kv{key, "<complex body>"})
 			}
+			return true
+		})
+		if fd.Name.Name == "GetErrUnmanaged" {
+			if len(fd.Body.List) == 1 {
+				if rs, ok := fd.Body.List[0].(*ast.ReturnStmt); ok && len(rs.Results) == 1 {
+					gates = append(gates, kv{key, fc.p(rs.Results[0])})
+					continue
+				}
+			}
+			gates = append(gates, kv{key, "<complex body>"})
 		}
 	}
 
@@ -733,11 +2047,11 @@ func main() {
 		fmt.Print(b.String())
 		return
 	}
-	tmp := *out + ".tmp"
 	os.MkdirAll(filepath.Dir(*out), 0755)
 	if old, err := os.ReadFile(*out); err == nil && string(old) == b.String() {
-		return // unchanged: keep the time stamp, lake need not rebuild
+		return
 	}
+	tmp := *out + ".tmp"
 	if err := os.WriteFile(tmp, []byte(b.String()), 0644); err != nil {
 		fmt.Fprintln(os.Stderr, err)
 		os.Exit(1)
